@@ -95,6 +95,8 @@ type Obligation struct {
 	guard  string
 	cond   string
 	Unclaimed string
+	witness   string
+	knownOnly bool
 }
 
 type edge struct {
